@@ -182,7 +182,7 @@ Proof. vm_compute. reflexivity. Qed.
 
 Lemma values_parts :
   out_params_ok = true /\ structs_ok = true /\ buffers_ok = true /\ loops_ok = true /\
-  c_strings_ok = true /\ meta_ok = true /\ setters_ok = true.
+  c_strings_ok = true /\ meta_ok = true /\ setters_ok = true /\ inner_calls_ok = true.
 Proof. repeat split; vm_compute; reflexivity. Qed.
 
 (* a match handed to the callback carries the start and the length of the match's range *)
